@@ -1,5 +1,8 @@
 """C20 — declaration algebra: iteration, membership, + and - obey ordered-set laws."""
+import os
+
 from .. import common as C
+from ..translate import declalg as TR
 
 ID = "C20"
 COQ_TARGETS = ["Tie/C20.vo", "Properties/C20.vo"]
@@ -13,14 +16,40 @@ THEOREMS = [
     "C20_add_extenders_of_A_in_front", "C20_add_as_worded_partial", "C20_add_as_worded_refuted",
     "C20_radd_is_add", "C20_operands_unchanged", "C20_alsoProvides_appends",
     "C20_noLongerProvides_removes_subinterfaces", "C20_noLongerProvides_exact",
+    "C20_generated_extends_eq_model", "C20_generated_interfaces_eq_model", "C20_generated_normalizeargs_eq_model",
+    "C20_generated_queries_eq_model", "C20_generated_sub_eq_model", "C20_generated_add_eq_model",
+    "C20_generated_add_interfaces_to_cls_eq_model", "C20_generated_directlyProvidedBy_eq_model",
+    "C20_generated_alsoProvides_eq_model", "C20_generated_noLongerProvides_eq_model",
 ]
+GEN = os.path.join(C.COQ, "Gen", "DeclAlgKernel.v")
+SRC_DECL = os.path.join(C.REPO, "src", "zope", "interface", "declarations.py")
+SRC_IFACE = os.path.join(C.REPO, "src", "zope", "interface", "interface.py")
+
+
+def regenerate(run):
+    """Re-translate the declaration algebra of the current source into coq/Gen/DeclAlgKernel.v (fail closed)."""
+    try:
+        C.write_if_changed(GEN, TR.translate_files(SRC_DECL, SRC_IFACE))
+        return []
+    except Exception as e:  # refuse, report, keep the pipeline alive on the pinned kernel
+        C.write_if_changed(GEN, TR.pinned())
+        return ["harness/translate/declalg.py refused %s / %s (%s: %s); coq/Gen/DeclAlgKernel.v holds the pinned kernel, "
+                "so the C20_generated_*_eq_model theorems are NOT about the current source"
+                % (SRC_DECL, SRC_IFACE, type(e).__name__, e)]
+
+
 RULE = ("per case: an interface DAG (<= 7 interfaces + Interface; chains, diamonds, explicit/implicit root, "
         "inconsistent orders), 1-3 classes with declarations, 4-6 operand declarations built from argument trees of "
         "depth <= 3 (tuples, lists, inline Declarations, references to earlier Declarations, implementedBy(cls) leaves "
         "and operands), all ordered pairs for - and +; a case is non-trivial when some + put an interface in front "
         "and some - removed a strict sub-interface; distinct = distinct (sizes, feature flags) signature")
 TRUSTED_BASE = ["Model/Ro.v as the transcription of ro.py / _calculate_sro (validated here through flattened() and "
-                "every extends decision)"]
+                "every extends decision)",
+                "harness/translate/declalg.py: the reading of the Python subset it accepts (for -> fold_left over the mutated "
+                "variables, comprehensions -> filter/map, any -> existsb, list truthiness -> nonempty, set/dict-as-set -> list, "
+                "a Declaration object = its __bases__, a class = its specification) and the instantiation of the abstract "
+                "vocabulary spelled out in the C20_generated_* statements; the C versions of isOrExtends / providedBy / "
+                "implementedBy are tied by the correspondence only"]
 ASSUMPTIONS = ["static specification graph (no __bases__ reassignment while declarations are alive)",
                "interface names unique, so == is identity",
                "non-strict resolution orders (ZOPE_INTERFACE_STRICT_IRO unset)"]
@@ -313,10 +342,14 @@ def replay_text(case, obs, mode):
     return "\n".join(L)
 
 
-TECHNIQUE = ("Coq proofs over a Gallina model of Declaration / _normalizeargs / Specification.interfaces / __sub__ / __add__ / "
+TECHNIQUE = ("Kernel regenerated from the source text by a fail-closed translator and proved equal to the model; Coq proofs over a Gallina model of Declaration / _normalizeargs / Specification.interfaces / __sub__ / __add__ / "
              "the instance declaration functions on top of Model/Ro.v; vm_compute correspondence with both implementations; "
              "brute-force reachability oracle in Coq")
-LEVEL_TEXT = ("Machine-checked theorems (Properties/C20.v, closed under the global context) state the iteration, membership, "
+LEVEL_TEXT = ("Gen/DeclAlgKernel.v is re-derived on every run from declarations.py / interface.py (Declaration.__contains__/"
+              "__iter__/flattened/__sub__/__add__/__radd__/__init__/_add_interfaces_to_cls, _normalizeargs, Specification."
+              "interfaces/extends, isOrExtends, InterfaceClass.interfaces, directlyProvidedBy, alsoProvides, noLongerProvides) and "
+              "ten C20_generated_*_eq_model theorems prove each regenerated definition equal to the model for all inputs. "
+              "Machine-checked theorems (Properties/C20.v, closed under the global context) state the iteration, membership, "
               "flattening, subtraction, addition and noLongerProvides laws for every well-numbered specification DAG, every "
               "argument tree and every pair of declarations; the model is compared with the C and Python implementations on "
               "generated cases on every run and the raw answers are judged by a reachability oracle inside Coq.")
